@@ -46,6 +46,12 @@ fn tiny_spec(run_seed: u64) -> PipeSpec {
             seed: r.next(),
         };
     }
+    // (drawn last) a queue barely larger than one contig: back-pressure, and anything that is
+    // budgeted by the queue capacity (pending output, in-flight work) is over budget early
+    if r.pct(30) {
+        let floor = s.gen.max_len as u64 + 64;
+        s.cfg.queue_capacity = format!("{}", floor + r.below(floor));
+    }
     s
 }
 
